@@ -300,7 +300,7 @@ def concrete_playback(unit, harness_id, prop):
            "--concrete-playback=print", "--target-dir", tdir, "--harness-timeout", f"{unit.timeout * 2}s",
            "--harness", harness_id, "--exact"]
     p = subprocess.run(cmd, cwd=crate_dir, env=ENV, stdout=subprocess.PIPE, stderr=subprocess.STDOUT, text=True,
-                       preexec_fn=_limit(30))
+                       preexec_fn=_limit(48))
     out1 = p.stdout
     tests = []
     for m in re.finditer(r"/// Check for `(\w+)`: (.*?)\n\s*\n?#\[test\]\nfn (kani_concrete_playback_\w+)\(\) \{\s*"
@@ -450,7 +450,7 @@ def main(argv):
         log(f"VIOLATION property={prop} replay={rp}")
     wall = time.time() - t0
 
-    if not a.no_evidence:
+    if not a.no_evidence and not a.only:  # a partial (--only) run never overwrites the evidence
         write_evidence(prop, a.tier, seed, results, runs, wall, len(violations), inconclusive)
     if violations:
         return 1
